@@ -542,6 +542,7 @@ func runNyctTrips(c *Ctx) {
 				// called here (the guard is then the one of the helper's call)
 				fnsWithStores := []*ssa.Function{upd}
 				inner := call
+				var selfBuilt *ssa.Function
 				if !setsVehicleDescriptor(call) {
 					h := staticCallee(call)
 					if h == nil || !c.P.isModuleFn(h) || fnPkgPath(h) != fnPkgPath(upd) || len(h.Blocks) == 0 {
@@ -555,6 +556,12 @@ func runNyctTrips(c *Ctx) {
 							}
 						}
 					}
+					if inner == nil && len(descriptorLiterals(h)) > 0 && storesVehicleField(h) {
+						// the helper is handed the identifier and builds the descriptor itself
+						if _, nst := descriptorKeptIntact(c, h); nst > 0 {
+							inner, selfBuilt = call, h
+						}
+					}
 					if inner == nil {
 						continue
 					}
@@ -563,11 +570,22 @@ func runNyctTrips(c *Ctx) {
 				n++
 				gs := guardStrings(b, blk)
 				okG := hasGuard(gs, "+", "proto:NyctTripDescriptor.IsAssigned")
-				desc := b.bind(inner.Call.Args[1])
+				desc := ""
+				if selfBuilt == nil {
+					desc = b.bind(inner.Call.Args[1])
+				}
 				var idExpr string
 				for _, fs := range collectFieldStores(fnsWithStores, "proto.VehicleDescriptor") {
 					if fs.field == "Id" {
-						idExpr = b.bind(fs.store.Val)
+						if selfBuilt != nil && fs.fn == selfBuilt {
+							var as []string
+							for _, a := range call.Call.Args {
+								as = append(as, b.bind(a))
+							}
+							idExpr = b.withArgs(selfBuilt, as).bind(fs.store.Val)
+						} else {
+							idExpr = b.bind(fs.store.Val)
+						}
 					}
 				}
 				call = inner
@@ -712,7 +730,15 @@ func runNyctTrips(c *Ctx) {
 				rows = append(rows, condsString(r.conds)+" -> "+r.results[0])
 			}
 			sort.Strings(rows)
-			pA, pS, pF := stale.Params[0].Name(), stale.Params[1].Name(), stale.Params[2].Name()
+			// the test is handed is_assigned, or the caller asks it only for unassigned trips (checked below, where it is
+			// called): then the rows are the ones for "not assigned" without that condition
+			callerTestsAssigned := len(stale.Params) == 2
+			pA, pS, pF := "", "", ""
+			if callerTestsAssigned {
+				pS, pF = stale.Params[0].Name(), stale.Params[1].Name()
+			} else {
+				pA, pS, pF = stale.Params[0].Name(), stale.Params[1].Name(), stale.Params[2].Name()
+			}
 			dep := "call:GetTime(call:GetDeparture(*(" + pS + "[const(0)])))"
 			arr := "call:GetTime(call:GetArrival(*(" + pS + "[const(0)])))"
 			feed := "conv[int64](" + pF + ")"
@@ -726,6 +752,16 @@ func runNyctTrips(c *Ctx) {
 				pA + "!=true && " + nz + " && " + dep + "!=0 && (" + dep + "<" + feed + ") -> const:true",
 				pA + "!=true && " + nz + " && " + dep + "!=0 && !((" + dep + "<" + feed + ")) -> const:false",
 			})
+			if callerTestsAssigned {
+				want = normaliseStaleRows([]string{
+					"len(" + pS + ")==0 -> const:true",
+					nz + " && " + dep + "==0 && " + arr + "==0 -> const:true",
+					nz + " && " + dep + "==0 && " + arr + "!=0 && (" + arr + "<" + feed + ") -> const:true",
+					nz + " && " + dep + "==0 && " + arr + "!=0 && !((" + arr + "<" + feed + ")) -> const:false",
+					nz + " && " + dep + "!=0 && (" + dep + "<" + feed + ") -> const:true",
+					nz + " && " + dep + "!=0 && !((" + dep + "<" + feed + ")) -> const:false",
+				})
+			}
 			sort.Strings(want)
 			got := normaliseStaleRows(rows)
 			same := strings.Join(got, "\n") == strings.Join(want, "\n")
@@ -761,6 +797,14 @@ func runNyctTrips(c *Ctx) {
 			gs := guardStrings(b, at)
 			if !(hasGuard(gs, "+", "proto.HasExtension(", "E_NyctTripDescriptor") && hasGuard(gs, "+", "FilterStaleUnassignedTrips")) {
 				okSkip = false
+			}
+			if len(call.Call.Args) == 2 {
+				// the caller tests is_assigned itself: the stale test is asked on the "not assigned" edge only
+				a1 := b.bind(call.Call.Args[0])
+				if !hasGuard(gs, "-", "updateTripOrVehicle(") || !strings.Contains(a1, "proto:TripUpdate.StopTimeUpdate") || call.Call.Args[1] != ssa.Value(updTrip.Params[2]) {
+					okSkip = false
+				}
+				return
 			}
 			a0 := b.bind(call.Call.Args[0])
 			a1 := b.bind(call.Call.Args[1])
@@ -818,6 +862,10 @@ func runNyctTrips(c *Ctx) {
 								gs := guardStrings(sub, rat)
 								if !(hasGuard(gs, "+", "proto.HasExtension(", "E_NyctTripDescriptor") && hasGuard(gs, "+", "FilterStaleUnassignedTrips")) {
 									okSkip = false
+								}
+								if len(y.Call.Args) != 3 {
+									okSkip = false
+									return
 								}
 								a0, a1 := sub.bind(y.Call.Args[0]), sub.bind(y.Call.Args[1])
 								if !strings.Contains(a0, "updateTripOrVehicle(") || !strings.Contains(a1, "proto:TripUpdate.StopTimeUpdate") || feedPrm < 0 || y.Call.Args[2] != ssa.Value(h.Params[feedPrm]) {
@@ -2267,6 +2315,7 @@ func descriptorKeptIntact(c *Ctx, setter *ssa.Function) (string, int) {
 	nst := 0
 	storeBlocks := map[*ssa.BasicBlock]bool{}
 	seen := map[ssa.Value]bool{}
+	var literalOf *ssa.Alloc
 	var follow func(v ssa.Value, d int)
 	// returnsAlias: the module helper returns, on some path, the given parameter
 	follow = func(v ssa.Value, d int) {
@@ -2289,6 +2338,9 @@ func descriptorKeptIntact(c *Ctx, setter *ssa.Function) (string, int) {
 				if x.X == v && x.Referrers() != nil {
 					for _, rr := range *x.Referrers() {
 						if st, ok := rr.(*ssa.Store); ok && st.Addr == ssa.Value(x) {
+							if literalOf != nil && v == ssa.Value(literalOf) && st.Block() == literalOf.Block() {
+								continue // the fields of the literal that builds it
+							}
 							bad = "its field " + fieldName(x.X.Type(), x.Field) + " is overwritten at " + p.ipos(st)
 						}
 					}
@@ -2346,6 +2398,12 @@ func descriptorKeptIntact(c *Ctx, setter *ssa.Function) (string, int) {
 			follow(prm, 0)
 		}
 	}
+	// ... or the setter builds the descriptor itself, from the identifier it is handed
+	for _, al := range descriptorLiterals(setter) {
+		literalOf = al
+		follow(al, 0)
+		literalOf = nil
+	}
 	// every kind of entity gets it, on every path: the two entities of one trip (trip update, vehicle position) must
 	// name the same vehicle, so neither may keep a descriptor of its own
 	if bad == "" && nst > 0 {
@@ -2384,6 +2442,33 @@ func descriptorKeptIntact(c *Ctx, setter *ssa.Function) (string, int) {
 		}
 	}
 	return bad, nst
+}
+
+// descriptorLiterals: the vehicle descriptors a function of the extensions builds itself (&proto.VehicleDescriptor{..}).
+func descriptorLiterals(f *ssa.Function) []*ssa.Alloc {
+	var out []*ssa.Alloc
+	for _, b := range f.Blocks {
+		for _, in := range b.Instrs {
+			if al, ok := in.(*ssa.Alloc); ok && al.Heap && shortType(al.Type()) == "*proto.VehicleDescriptor" {
+				out = append(out, al)
+			}
+		}
+	}
+	return out
+}
+
+// storesVehicleField: the function itself stores a vehicle descriptor into the Vehicle field of an entity.
+func storesVehicleField(f *ssa.Function) bool {
+	for _, b := range f.Blocks {
+		for _, in := range b.Instrs {
+			if st, ok := in.(*ssa.Store); ok {
+				if fa, isFA := st.Addr.(*ssa.FieldAddr); isFA && shortType(deref(fa.Type())) == "*proto.VehicleDescriptor" && fieldName(fa.X.Type(), fa.Field) == "Vehicle" {
+					return true
+				}
+			}
+		}
+	}
+	return false
 }
 
 // reachesValue: v is w, or a phi / conversion over values one of which is w.
@@ -2757,7 +2842,7 @@ func runSameVehicleForBothEntities(c *Ctx) {
 				has = true
 			}
 		}
-		if !has {
+		if !has && (len(descriptorLiterals(f)) == 0 || !storesVehicleField(f)) {
 			continue
 		}
 		bad, nst := descriptorKeptIntact(c, f)
@@ -2889,4 +2974,58 @@ func runElevatorStepFirst(c *Ctx, ua, ue *ssa.Function) {
 			c.Proved("ALRT", shortName(ua), key, p.ipos(r), "the read cannot be followed by the elevator step")
 		}
 	}
+}
+
+// runNoExtensionIsInert: without an extension (and for every extension that embeds the no-op implementation for the
+// hooks it does not care about) the parser transcribes the message as it is: the methods of extensions.NoExtensionImpl
+// look at nothing and answer constants (no skip, no track, the zero result). A default hook that inspects the entity
+// changes ParseRealtime for every caller who never asked for an extension.
+func runNoExtensionIsInert(c *Ctx, rule string) {
+	p := c.P
+	n := 0
+	for _, fn := range p.ModFns {
+		if fn.Signature.Recv() == nil || len(fn.Blocks) == 0 || !strings.HasSuffix(typeName(fn.Signature.Recv().Type()), "extensions.NoExtensionImpl") {
+			continue
+		}
+		if fn.Synthetic != "" {
+			continue
+		}
+		n++
+		bad := ""
+		for _, b := range fn.Blocks {
+			for _, in := range b.Instrs {
+				switch x := in.(type) {
+				case *ssa.Return:
+					for _, r := range x.Results {
+						switch y := r.(type) {
+						case *ssa.Const:
+						case *ssa.UnOp:
+							// the zero value of a struct result: a literal with no stores
+							al, isAlloc := y.X.(*ssa.Alloc)
+							if y.Op != token.MUL || !isAlloc {
+								bad = "it answers " + y.String() + " at " + p.ipos(y)
+								break
+							}
+							for _, rr := range *al.Referrers() {
+								if _, isLoad := rr.(*ssa.UnOp); !isLoad {
+									if _, isDbg := rr.(*ssa.DebugRef); !isDbg {
+										bad = "its answer is built at " + p.ipos(rr)
+									}
+								}
+							}
+						default:
+							bad = "it answers " + r.String()
+						}
+					}
+				case *ssa.Alloc, *ssa.DebugRef, *ssa.UnOp, *ssa.Jump:
+				default:
+					if bad == "" {
+						bad = "it executes " + in.String() + " at " + p.ipos(in)
+					}
+				}
+			}
+		}
+		c.Check(bad == "", rule, shortName(fn), "the no-op extension looks at nothing and answers constants", p.pos(fn.Pos()), "the method only returns constants / zero values", bad+": ParseRealtime without an extension (and with every extension that embeds the no-op hooks) no longer transcribes every entity")
+	}
+	c.Stats[rule+" no-op hooks"] = n
 }
